@@ -136,8 +136,11 @@ def cayley(n, variant=0, complex_=False):
 
 def basis(T, n, variant=0, complex_=False, dtype=None):
     """concrete orthogonal/unitary n x n basis as a mode array"""
-    Q = cayley(n, variant, complex_)
     dtype = dtype or ('complex128' if complex_ else 'float64')
+    if variant < 0:
+        # identity basis: invariant subspaces are exact in floating point as well (needed to replay exact breakdowns)
+        return eye_like(T, n, dtype)
+    Q = cayley(n, variant, complex_)
     rows = [[cst(T, q.re, q.im) for q in r] for r in Q]
     return mat(T, rows, dtype)
 
